@@ -644,6 +644,7 @@ def StmtWF (sc : Schema) : Stmt → Prop
   | .delete _ => True
   | .insert rows => ∀ es ∈ rows, es.length = sc.ncols
   | .failing _ => True
+  | .upsert _ _ => False     -- INSERT … ON DUPLICATE KEY UPDATE: not covered by the restore theorems
 
 theorem stmt_restore (sc : Schema) (cfg : Cfg) (t : Table) (args : Args) (s : Stmt)
     (t' : Table) (item : Item) (keys : List Key)
@@ -654,6 +655,7 @@ theorem stmt_restore (sc : Schema) (cfg : Cfg) (t : Table) (args : Args) (s : St
   | delete w => exact delete_restore sc cfg t args w t' item keys hu hsh h
   | insert rows => exact insert_restore sc cfg t args rows t' item keys hu hsh hs h
   | failing s => simp [stmtPhase1] at h
+  | upsert rows assign => exact absurd hs (by simp [StmtWF])
 
 /-! ### one branch -/
 
@@ -683,6 +685,10 @@ theorem undoFold_snoc (sc : Schema) (cfg : Cfg) (u : Table) (l : List Item) (it 
 theorem undoBranch_of_fold (sc : Schema) (cfg : Cfg) (u u' : Table) (b : Branch)
     (h : undoFold sc cfg u b.items.reverse = (u', true)) : undoBranch sc cfg u b = (u', true) := by
   simp [undoBranch, h]
+
+theorem extraItems_wf (sc : Schema) (t t' : Table) (args : Args) (s : Stmt) (hs : StmtWF sc s) :
+    extraItems sc t t' args s = [] := by
+  cases s <;> first | rfl | exact absurd hs (by simp [StmtWF])
 
 theorem local_restore (sc : Schema) (cfg : Cfg) : ∀ (ltx : LocalTx) (t t' : Table) (b : Branch),
     PkUnique sc t → (∀ r ∈ t, r.length = sc.ncols) → (∀ p ∈ ltx, StmtWF sc p.1) →
@@ -714,10 +720,11 @@ theorem local_restore (sc : Schema) (cfg : Cfg) : ∀ (ltx : LocalTx) (t t' : Ta
         refine ⟨hwf2, ?_⟩
         intro u hp
         obtain ⟨u1, hf1, hp1⟩ := hrest u hp
+        have hex := extraItems_wf sc t t1 args s (hs (s, args) (by simp))
         cases hne : item.nonEmpty
-        · simp only [Bool.false_eq_true, if_false]
+        · simp only [Bool.false_eq_true, if_false, hex, List.nil_append]
           exact ⟨u1, hf1, hempty hne ▸ hp1⟩
-        · simp only [if_true, List.reverse_cons]
+        · simp only [if_true, hex, List.append_nil, List.singleton_append, List.reverse_cons]
           obtain ⟨u', res, hit, hres, hp'⟩ := hundo hne u1 hp1
           refine ⟨u', ?_, hp'⟩
           rw [undoFold_snoc, hf1]
@@ -747,10 +754,11 @@ theorem lenient_restore (sc : Schema) (cfg : Cfg) : ∀ (ltx : LocalTx) (t : Tab
       refine ⟨hwf2, ?_⟩
       intro u hp
       obtain ⟨u1, hf1, hp1⟩ := hrest u hp
+      have hex := extraItems_wf sc t t1 args s (hs (s, args) (by simp))
       cases hne : item.nonEmpty
-      · simp only [Bool.false_eq_true, if_false]
+      · simp only [Bool.false_eq_true, if_false, hex, List.nil_append]
         exact ⟨u1, hf1, hempty hne ▸ hp1⟩
-      · simp only [if_true, List.reverse_cons]
+      · simp only [if_true, hex, List.append_nil, List.singleton_append, List.reverse_cons]
         obtain ⟨u', res, hit, hres, hp'⟩ := hundo hne u1 hp1
         refine ⟨u', ?_, hp'⟩
         rw [undoFold_snoc, hf1]
